@@ -99,6 +99,9 @@ fn main() {
     }
     quiet_panics();
     let heavy = args.iter().any(|a| a == "--heavy");
+    if args.iter().any(|a| a == "--raw") {
+        decode::INCLUDE_RAW.store(true, std::sync::atomic::Ordering::Relaxed);
+    }
     let scheds: (String, String) = (arg(&args, "--rsched", "whole".to_string()), arg(&args, "--wsched", "whole".to_string()));
     match args[1].as_str() {
         "gen" => {
